@@ -12,7 +12,7 @@
    source order). *)
 From Coq Require Import ZArith List Bool String Arith.
 From Verif Require Import Lib.Sx Lib.PyStr Lib.Facts Model.Session Model.Faults Model.FaultsCheck.
-From Verif Require Import Gen.Dispatch Gen.Faultsites Proofs.GenTable Proofs.GenFaults Proofs.Faults Proofs.FaultsStep.
+From Verif Require Import Gen.Dispatch Gen.Faultsites Proofs.GenTable Proofs.GenFaults Proofs.Faults Proofs.FaultsStep Proofs.FaultsUsable.
 Import ListNotations.
 Open Scope list_scope.
 Open Scope nat_scope.
@@ -106,6 +106,53 @@ Proof.
                                            gen_clist gen_cmlsd blk gen_params_ok).
 Qed.
 Print Assumptions C13_session_survives.
+
+(* "usable for further commands": the probes PWD and PASV, sent right after the command in which a backend
+   call raised, are answered 257 with the directory the session was in before that command, and 227 with
+   a listener; obligations: both verbs carry the login guard only *)
+Theorem C13_probe_obligations :
+  login_only gen_table "pwd" "pwd" = true /\ login_only gen_table "pasv" "pasv" = true.
+Proof. vm_compute. split; reflexivity. Qed.
+Print Assumptions C13_probe_obligations.
+
+Theorem C13_usable_after_fault : forall users blk w0 e,
+  s_logged (fw_s w0) = true ->
+  raised w0 (gstep users blk w0 e) ->
+  let w1 := gstep users blk w0 e in
+  (fw_codes (gstep users blk w1 (probe_ev "pwd")) = [code "257"] /\
+   fw_info (gstep users blk w1 (probe_ev "pwd")) = quoted (path_str (s_cwd (fw_s w0)))) /\
+  (fw_codes (gstep users blk w1 (probe_ev "pasv")) = [code "227"] /\
+   s_passive (fw_s (gstep users blk w1 (probe_ev "pasv"))) = true /\
+   s_ended (fw_s (gstep users blk w1 (probe_ev "pasv"))) = false).
+Proof.
+  exact (fun users blk => usable_after_fault users gen_table pathcond_defs gen_react gen_wrapped gen_cstor gen_cretr
+                                             gen_clist gen_cmlsd blk (proj1 C13_probe_obligations)
+                                             (proj2 C13_probe_obligations) gen_params_ok).
+Qed.
+Print Assumptions C13_usable_after_fault.
+
+(* whole histories: at every command of every run - whatever came before, earlier faults included - a
+   backend failure is contained ([contained]: session state as in C13_session_survives, the 451 alone or
+   150;451, the data-stream alternatives of C13_data_closed_partial) and answered by one 451 and no 2xx;
+   and no history of backend failures ever ends a session *)
+Theorem C13_every_history : forall users blk es w,
+  all_steps users gen_table pathcond_defs gen_react gen_wrapped gen_cstor gen_cretr gen_clist gen_cmlsd blk
+    (fun w0 e w' => raised w0 w' ->
+       contained gen_cstor gen_cretr (e_verb e) w0 w' /\ one_451_no_2xx (fw_codes w')) w es.
+Proof.
+  exact (fun users blk => run_contained users gen_table pathcond_defs gen_react gen_wrapped gen_cstor gen_cretr
+                                        gen_clist gen_cmlsd blk gen_params_ok).
+Qed.
+Print Assumptions C13_every_history.
+
+Theorem C13_faults_never_end_session : forall users blk es w,
+  all_steps users gen_table pathcond_defs gen_react gen_wrapped gen_cstor gen_cretr gen_clist gen_cmlsd blk
+    (fun w0 e w' => raised w0 w' -> s_ended (fw_s w') = false) w es.
+Proof.
+  exact (fun users blk => faults_never_end_session users gen_table pathcond_defs gen_react gen_wrapped gen_cstor
+                                                   gen_cretr gen_clist gen_cmlsd blk gen_params_ok).
+Qed.
+Print Assumptions C13_faults_never_end_session.
 
 (* ------------------------------------------------------------------ other sessions *)
 (* two sessions on one backend (Model/Faults.v [step2]): whatever the first session does - any commands,
